@@ -1,7 +1,8 @@
 #!/usr/bin/env python3
 """translate_imp.py - fail-closed translator for the small IMPERATIVE methods that mutate the dictionaries of CFDivisor / CFGraph
 (lending_move, borrowing_move, chip_transfer, set_fire, is_effective, get_degree; add_edge, get_valence, is_loopless;
-CFiringScript.get_firings / set_firings / update_firings; CFConfig.get_out_degree_S and the wrappers set_fire / lending_move / borrowing_move;
+CFiringScript.get_firings / set_firings / update_firings; CFConfig.get_out_degree_S, the wrappers set_fire / lending_move / borrowing_move and the readers
+get_degree_at / get_q_underlying_degree / get_degree_sum / is_non_negative;
 CFOrientation.set_orientation / check_fullness / get_in_degree / get_out_degree) to Gallina.
 Writes coq/theories/TranslatedImpCFDivisor.v and TranslatedImpCFGraph.v (one file per class, so that a method that leaves the subset only
 affects the property that speaks about its class) from /repo's CURRENT source on every run; Link/ImpLink.v proves that each translated method, run on a
@@ -19,7 +20,8 @@ Assumed semantics (the trusted part of this tie, restated in Base/PyDict.v):
 Subset (anything else raises Unsupported and the run fails closed): see the methods stmt/expr below - assignments to locals, `x, y = (a, b)`,
 `if/else`, `raise`, `return e`, `for k in d`, `for k, v in d.items()`, `for x in <set>`, `s.add(x)`, `self.f[k] op= e`, `self.f[a][b] (op)= e`,
 `self.f (op)= e`, conditional expressions, the members of the enum OrientationState (read from the source: distinct integer constants),
-calls of already translated methods on self (and on self.divisor from a CFConfig), validation-only loops, the early-exit loop `for ..: if c: return CONST`, and loops
+calls of already translated methods on self (and on self.divisor from a CFConfig; a read-only method that may raise can be called inside an
+expression and is hoisted like a dictionary read), validation-only loops, the early-exit loop `for ..: if c: return CONST`, and loops
 that `return` from anywhere inside (the accumulator then carries `(option result, state)` and later iterations are skipped); `<` on vertices is the
 order of their names = of their numbers; a method with a result that also writes fields returns `(result, fields)`. An `if` whose branches only update state and which
 is followed by more statements is translated as `match (if c then A else B) with ...` so that the continuation appears once."""
@@ -52,6 +54,7 @@ TARGETS = [
     ("chipfiring/CFConfig.py", "CFConfig", "get_out_degree_S"),
     ("chipfiring/CFOrientation.py", "CFOrientation", "set_orientation"), ("chipfiring/CFOrientation.py", "CFOrientation", "check_fullness"),
     ("chipfiring/CFOrientation.py", "CFOrientation", "get_in_degree"), ("chipfiring/CFOrientation.py", "CFOrientation", "get_out_degree"),
+    ("chipfiring/CFConfig.py", "CFConfigMoves", "get_degree_at"), ("chipfiring/CFConfig.py", "CFConfigMoves", "is_non_negative"), ("chipfiring/CFConfig.py", "CFConfigMoves", "get_degree_sum"), ("chipfiring/CFConfig.py", "CFConfigMoves", "get_q_underlying_degree"),
     ("chipfiring/CFConfig.py", "CFConfigMoves", "set_fire"), ("chipfiring/CFConfig.py", "CFConfigMoves", "lending_move"), ("chipfiring/CFConfig.py", "CFConfigMoves", "borrowing_move"),
 ]
 class Unsupported(Exception): pass
@@ -118,6 +121,26 @@ class Fn:
             src, ts = self.expr(e.generators[0].iter); v = e.generators[0].target.id
             if ts != "set" or ast.unparse(e.elt) not in ("Vertex(%s)" % v, v): bad(e, "set comprehension")
             return src, "set"
+        if isinstance(e, ast.Call) and isinstance(e.func, ast.Attribute) and ast.unparse(e.func.value) == "self.divisor" and self.cls == "CFConfigMoves":
+            # a read-only CFDivisor method called on the wrapped divisor; hoisted like a dictionary read (it may raise)
+            callee = DONE.get(("CFDivisor", e.func.attr)); names = [p_ for p_, _ in (callee.params if callee else [])]
+            if not callee or callee.writes or callee.rty is None or callee.uses_order or e.keywords or len(e.args) != len(names): bad(e, "call of an untranslated / impure CFDivisor method in an expression")
+            args = []
+            for fld in callee.reads:
+                mine = CROSS[fld]
+                if mine not in self.reads: self.reads.append(mine)
+                args.append(mine)
+            for a_, (_, ty_) in zip(e.args, callee.params):
+                t_, tt_ = self.expr(a_)
+                if tt_ != ty_: bad(e, "argument type")
+                args.append(t_)
+            call = "CFDivisor_%s %s" % (e.func.attr, " ".join(args))
+            if not callee.can_raise: return "(%s)" % call, callee.rty
+            t = self.fresh(); self.pending.append((t, "CALL_ " + call)); self.can_raise = True; return t, callee.rty
+        if isinstance(e, ast.Call) and isinstance(e.func, ast.Attribute) and ast.unparse(e.func.value) == "self" and DONE.get((self.cls, e.func.attr)) is not None \
+                and DONE[(self.cls, e.func.attr)].can_raise and not DONE[(self.cls, e.func.attr)].writes and DONE[(self.cls, e.func.attr)].rty is not None:
+            callee = DONE[(self.cls, e.func.attr)]; args = self.call_args(callee, e)
+            t = self.fresh(); self.pending.append((t, "CALL_ %s_%s %s" % (self.cls, e.func.attr, " ".join(args)))); self.can_raise = True; return t, callee.rty
         if isinstance(e, ast.Call) and isinstance(e.func, ast.Attribute) and ast.unparse(e.func.value) == "self":
             callee = DONE.get((self.cls, e.func.attr))
             if not callee or callee.writes or callee.can_raise: bad(e, "call of an untranslated / impure method in an expression")
@@ -186,7 +209,9 @@ class Fn:
         return out
     def wrap(self, text):
         """close the lookups hoisted while translating the current statement around `text`"""
-        for t, look in reversed(self.pending): text = "match %s with None => EXN_ | Some %s =>\n  %s end" % (look, t, text)
+        for t, look in reversed(self.pending):
+            if look.startswith("CALL_ "): text = "match %s with PyExn _ => EXN_ | PyOk %s =>\n  %s end" % (look[6:], t, text)      # a read-only method that may raise
+            else: text = "match %s with None => EXN_ | Some %s =>\n  %s end" % (look, t, text)
         self.pending = []; return text
     def state_tuple(self, vs): return "tt" if not vs else ("(" + ", ".join(vs) + ")" if len(vs) != 1 else vs[0])
     def assigned(self, stmts):
@@ -355,7 +380,7 @@ class Fn:
         if isinstance(s, ast.For) and not s.orelse:
             # early exit: `for ..: if c: return CONST`
             if len(s.body) == 1 and isinstance(s.body[0], ast.If) and not s.body[0].orelse and len(s.body[0].body) == 1 and isinstance(s.body[0].body[0], ast.Return) \
-                    and isinstance(s.body[0].body[0].value, ast.Constant):
+                    and isinstance(s.body[0].body[0].value, ast.Constant) and not any(isinstance(n_, (ast.Call, ast.Subscript)) for n_ in ast.walk(s.body[0].test)):      # (a condition that can raise goes through the general returning loop below)
                 lst, bind, vs, binder = self.iter_of(s.iter, s.target)
                 env0 = dict(self.env); self.env.update(vs); n0 = len(self.pending); c, tc = self.expr(s.body[0].test)
                 if tc != "bool" or len(self.pending) != n0: bad(s, "early-exit condition")
